@@ -218,7 +218,67 @@ def composite_reference_locations(elem, rd, dim):
     return np.array(rows)
 
 
+LOC_EXCLUDED = ("ElementTri15ParamPlate", "ElementTetSkeletonP0")   # reference tables not on their entities (checked once)
+
+
+def check_dofloc_entities(ctx, mc, rec, elem, basis):
+    """Every DOF location lies on the entity the number is attached to (first-order meshes): a vertex DOF at its vertex,
+    an edge / facet DOF in the affine hull and bounding box of the entity's vertices, an interior DOF inside the bounding
+    box of its cell; NaN exactly where the element's own table has NaN.  Independent of which neighbouring cell wrote the
+    location last."""
+    mesh, kind, dim = mc.mesh, mc.kind, mc.dim
+    if mc.order != 1 or not hasattr(elem, "doflocs") or not hasattr(basis, "doflocs") or rec.name.split("(")[0] in LOC_EXCLUDED \
+            or any(n in rec.name for n in LOC_EXCLUDED):
+        return
+    rd = elem.refdom
+    layout = decode_rows(elem, None, kind, dim)
+    L = np.asarray(elem.doflocs, dtype=float)
+    ed = np.asarray(basis.dofs.element_dofs)
+    if layout is None or L.shape[0] != len(layout) or ed.shape[0] != len(layout):
+        return
+    P, t = np.asarray(mesh.p, dtype=float), np.asarray(mesh.t)
+    DL = np.asarray(basis.doflocs, dtype=float)
+    h = float(np.abs(P).max()) + 1.0
+    tol = 1e-9 * h
+    bad = None
+    for r, (ek, s_, j) in enumerate(layout):
+        x = DL[:, ed[r]]                                        # (dim, nt)
+        nanrow = bool(np.isnan(L[r]).any())
+        if nanrow != bool(np.isnan(x).any()) or (nanrow and not np.isnan(x).all()):
+            bad = bad or (r, ek, "nan-pattern")
+            continue
+        if nanrow:
+            continue
+        if ek == "v":
+            verts = [s_]
+        elif ek == "e":
+            verts = list(rd.edges[s_])
+        elif ek == "f":
+            verts = list(dict.fromkeys(rd.facets[s_])) if dim >= 2 else [s_]
+        else:
+            verts = list(range(rd.nnodes))
+        V = P[:, t[verts]]                                      # (dim, m, nt)
+        lo, hi = V.min(axis=1) - tol, V.max(axis=1) + tol
+        inbox = ((x >= lo) & (x <= hi)).all()
+        ok = bool(inbox)
+        if ok and ek in ("e", "f") and len(verts) <= dim:
+            # affine hull of a simplex entity (edge, triangle): residual of the least-squares barycentric fit
+            A = V[:, 1:, :] - V[:, :1, :]                       # (dim, m-1, nt)
+            rhs = x - V[:, 0, :]
+            for c in range(x.shape[1]):
+                lam, *_ = np.linalg.lstsq(A[:, :, c], rhs[:, c], rcond=None)
+                if np.abs(A[:, :, c] @ lam - rhs[:, c]).max() > 1e-8 * h:
+                    ok = False
+                    break
+        if not ok and bad is None:
+            bad = (r, ek, "off-entity")
+    ctx.check("doflocs-agree", bad is None, mech=f"dof-location-not-on-its-entity:{rec.name.split('(')[0]}", first_bad=bad,
+              mesh=type(mesh).__name__, elem=rec.name)
+    ctx.reached("dof-locations-on-entities")
+
+
 def check_doflocs(ctx, mc, rec, elem, basis):
+    check_dofloc_entities(ctx, mc, rec, elem, basis)
     mesh, kind = mc.mesh, mc.kind
     ed = np.asarray(basis.dofs.element_dofs)
     counts = (elem.nodal_dofs, elem.edge_dofs if mc.dim == 3 else 0, elem.facet_dofs if mc.dim >= 2 else 0,
@@ -526,4 +586,4 @@ FAMILIES.append(Family("composite-basis", composite_basis_case, 24, 480))
 FAMILIES.append(Family("periodic", periodic_case, 12, 240))
 FAMILIES.append(Family("registry", registry_complete, 1, 1))
 REQUIRED_REACH = ["rectangular-assembly", "periodic-topology", "composite-doflocs", "synthetic-dof-counts", "nested-wrappers",
-                  "facet-basis-sparsity"]
+                  "facet-basis-sparsity", "dof-locations-on-entities"]
